@@ -200,14 +200,18 @@ public:
     {
         // first try to find an existing key
         typename Map::iterator it = map_.find(key);
+
+        // insert key into linked list at the front (most recently used). This
+        // is done before the old entry is removed, because value may be a
+        // reference to the old entry's value, as in put(k, get(k)).
+        list_.push_front(KeyValuePair(key, value));
+
         if (it != map_.end())
         {
             list_.erase(it->second);
             map_.erase(it);
         }
 
-        // insert key into linked list at the front (most recently used)
-        list_.push_front(KeyValuePair(key, value));
         // store iterator to linked list entry in map
         map_.insert(std::make_pair(key, list_.begin()));
     }
